@@ -353,6 +353,37 @@ def main(pid, tier):
             co['disagree'] += 1
             rep.disagreements.append(('lookup', 'lookup:' + case['kind'], {'case': case, 'key': k, 'index': index},
                                       'model %s vs implementation %s' % (json.dumps(a)[:100], json.dumps(got)[:100])))
+    # ---- long series: value lists longer than 2**15 (and, thorough, 2**16) entries — positions past what a 16-bit header field
+    # can count still read their own value
+    import nibabel as nb
+    from dcmstack.dcmmeta import NiftiWrapper
+    for shape in ([(1, 1, 40, 1000), (1, 2, 30, 300, 5)] + ([(1, 1, 70, 1000)] if tier == 'thorough' else [])):
+        sd_ = 2
+        S_, T_ = shape[2], shape[3]
+        V_ = shape[4] if len(shape) > 4 else 1
+        ext = M.build_ext(list(shape), sd_, [('SliceTag', 'gslices', list(range(S_ * T_ * V_))),
+                                            ('VolTag', 'tsamples', list(range(T_ * V_)))])
+        img = nb.Nifti1Image(np.zeros(shape, dtype=np.int8), np.eye(4))
+        img.header.set_dim_info(slice=sd_)
+        img.header.extensions.append(ext)
+        w = NiftiWrapper(img)
+        picks = [(0, 0, S_ - 1, T_ - 1) + ((V_ - 1,) if V_ > 1 else ()), (0, 0, 8, 819 % T_) + ((V_ - 1,) if V_ > 1 else ()),
+                 (0, 0, 0, 0) + ((0,) if V_ > 1 else ())]
+        for _ in range(12):
+            picks.append((0, r.randrange(shape[1]), r.randrange(S_), r.randrange(T_)) + ((r.randrange(V_),) if V_ > 1 else ()))
+        for index in picks:
+            s_, t_ = index[2], index[3]
+            v_ = index[4] if V_ > 1 else 0
+            rep.evaluations += 1
+            rep.count('lookup/long-series')
+            want = {'SliceTag': s_ + S_ * (t_ + T_ * v_), 'VolTag': t_ + T_ * v_}
+            for key_, exp_ in want.items():
+                got = call(w, key_, index)
+                if got != {'value': M.cv(exp_)}:
+                    rep.failure('get_meta(%r, %s) on an image of shape %s returned %s, the value stored for that position is %s' % (
+                        key_, index, shape, json.dumps(got)[:80], exp_),
+                        {'tag': 'lookup:long-series', 'suite': 'lookup', 'shape': list(shape), 'key': key_, 'index': list(index)})
+                    break
     from .check_meta import finish_disagreements
     finish_disagreements(rep)
     return rep.finish()
